@@ -46,7 +46,7 @@ pub enum RcOp
     GcFaultOn(u8),
     /// spawn `.0` fresh entities, prepare each and drop the signal at once: several entities wait for one pass
     Burst(u8),
-    /// `.0` x 16 fresh entities with exactly two clones each; two threads drop one clone of every entity in lock-step
+    /// `.0` x 40 fresh entities with exactly two clones each; two threads drop one clone of every entity in lock-step
     /// (barrier, same order), so the last two clones of each entity are dropped as simultaneously as the machine
     /// allows; one collection afterwards must take every one of them
     Race(u8),
@@ -368,7 +368,7 @@ fn run_inner(case: &RcCase, out: &mut RcOutcome)
             }
             RcOp::Race(k) =>
             {
-                let n = 16 * (*k as usize).clamp(1, 4);
+                let n = 40 * (*k as usize).clamp(1, 4);
                 let fresh: Vec<Entity> = (0..n).map(|_| app.world_mut().spawn_empty().id()).collect();
                 let (mut left, mut right) = (Vec::with_capacity(n), Vec::with_capacity(n));
                 for e in fresh.iter()
